@@ -687,6 +687,26 @@ def load_bin_program():
 
 # ---- the order in which given documents come out of the file parser ---------------------------------------------------------------
 
+ORDER_TREE = {"d": ["d/one.md", "d/notes.txt", "d/deep"], "d/deep": ["d/deep/two.t"]}
+
+
+def expected_documents(names, fs):
+    """the documents find_and_parse is to yield for the named paths in the tree `fs`; None if one of them cannot be read"""
+    out = []
+
+    def walk(p_):
+        k = fs.get(p_, "file")
+        if isinstance(k, list):
+            return all([walk(ch) for ch in k])
+        if not p_.endswith((".md", ".t")):
+            return True
+        if k == "unreadable":
+            return False
+        out.append(p_)
+        return True
+    return out if all([walk(n) for n in names]) else None
+
+
 def h_document_order(prog):
     """FileParser::find_and_parse on explicitly named files: one parsed document per path, in the order given"""
     from props import c18
@@ -706,11 +726,29 @@ def h_document_order(prog):
                         self.overrides[n] = (lambda ctx, fname, args, fn=fn: fn(ctx, None, args))
             ins(r"<P as AsRef<(?:std::path::)?Path>>::as_ref|<&P as AsRef<(?:std::path::)?Path>>::as_ref", lambda c, m, a: c18.mk_path(c18.pstr(a[0])))
             ins(r"<&(?:std::path::)?Path as Into<PathBuf>>::into|<&P as Into<PathBuf>>::into", lambda c, m, a: c18.mk_pathbuf(c18.pstr(a[0])))
-            ins(r"(?:std::fs::)?metadata::<.*>", lambda c, m, a: ok(Opaque("Metadata:file")))
-            ins(r"(?:std::fs::)?Metadata::is_dir", lambda c, m, a: SBool(False))
+            # the file system is the tree in notes["fs"]: path → "file" | "unreadable" | [children] (a directory); unnamed paths are plain files
+            kind = lambda c, p_: c.notes["fs"].get(p_, "file")
+
+            def metadata(c, m, a):
+                k = kind(c, c18.pstr(a[0]))
+                return ok(Opaque("Metadata:dir" if isinstance(k, list) else "Metadata:file"))
+            ins(r"(?:std::fs::)?metadata::<.*>", metadata)
+            ins(r"(?:std::fs::)?Metadata::is_dir", lambda c, m, a: SBool(deref(a[0]).what == "Metadata:dir"))
             ins(r"(?:std::path::)?Path::exists", lambda c, m, a: SBool(True))
-            ins(r"accept", lambda c, m, a: SBool(True), defs=r"utils/file_parser\.rs[^>]*>::accept$")
-            ins(r"read_file", lambda c, m, a: ok(StringBuf([SInt(ord(ch), "char") for ch in "content of " + c18.pstr(a[0])])), defs=r"(?:^|::)read_file$")
+            ins(r"accept", lambda c, m, a: SBool(c18.pstr(a[1]).endswith((".md", ".t"))), defs=r"utils/file_parser\.rs[^>]*>::accept$")
+
+            def read_dir(c, m, a):
+                from mir_models import SeqIt
+                return ok(SeqIt([ok(Agg("DirEntry", None, [c18.mk_pathbuf(ch)])) for ch in kind(c, c18.pstr(a[0]))]))
+            ins(r"(?:std::fs::)?read_dir::<.*>", read_dir)
+            ins(r"(?:std::fs::)?DirEntry::path", lambda c, m, a: c18.mk_pathbuf(c18.pstr(deref(a[0]).fields[0])))
+
+            def read_file(c, m, a):
+                p_ = c18.pstr(a[0])
+                if kind(c, p_) == "unreadable":
+                    return err(Opaque("anyhow:unreadable"))
+                return ok(StringBuf([SInt(ord(ch), "char") for ch in "content of " + p_]))
+            ins(r"read_file", read_file, defs=r"(?:^|::)read_file$")
 
             def parser(c, m, a):
                 return ok(Agg("tuple", None, [Agg("ParserType", "Markdown", []), mk_box(Agg("StubParser", None, [c18.mk_pathbuf(c18.pstr(a[1]))]))]))
@@ -724,37 +762,50 @@ def h_document_order(prog):
             ins(r"<dyn (?:scrut::parsers::parser::)?Parser as (?:scrut::parsers::parser::)?Parser>::parse", parse)
             ins(r"<Result<.*> as anyhow::Context<.*>>::with_context::<.*>|<Result<.*> as anyhow::Context<.*>>::context::<.*>", lambda c, m, a: a[0] if a[0].variant == "Ok" else err(Opaque("anyhow:other")))
 
-    def mk(names):
+    def mk(names, fs=None):
         def setup(ctx):
             ctx.notes["ledger"] = c18.Ledger()
             ctx.notes["names"] = names
+            ctx.notes["fs"] = fs or {}
             fp = Agg("FileParser", None, [Opaque("match_cram"), Opaque("match_markdown"), Slice([])])
             return [new_ref(fp), Str([SInt(ord(c), "char") for c in "test"]), Slice([c18.mk_path(n) for n in names]), SBool(False)]
         return setup
 
     def drive(ctx, args):
-        """FileParser::find_and_parse(name, paths, cram_compat) with the file system replaced by `every named path is a readable file`"""
+        """FileParser::find_and_parse(name, paths, cram_compat) with the file system replaced by a small tree of files, directories and unreadable documents"""
         return ctx.call(find_method(ctx.program, "utils/file_parser.rs", "find_and_parse"), list(args))
 
     def post(ctx, args, kind, value):
-        if kind != "return" or value.variant != "Ok":
+        if kind != "return":
+            return False
+        want = expected_documents(ctx.notes["names"], ctx.notes["fs"])
+        if want is None:
+            return value.variant == "Err"       # a document that cannot be read: scrut cannot do its job
+        if value.variant != "Ok":
             return False
         docs = as_items(value.fields[0])
         got = [c18.pstr(field_of(d, "path")) for d in docs]
         titles = [title_of(field_of(d, "testcases").items[0]) for d in docs]
-        names = ctx.notes["names"]
-        return got == names and titles == ["content of " + n for n in names]
+        return got == want and titles == ["content of " + n for n in want]
     import itertools as it
     base = ["zeta.md", "alpha.md", "last.t", "sub/b.md"]
     inputs = [("paths=%s" % list(p), mk(list(p))) for n in (1, 2, 3) for p in it.permutations(base, n)]
+    for bad in (None, "d/one.md", "d/deep/two.t", "zeta.md"):
+        fs = dict(ORDER_TREE)
+        if bad:
+            fs[bad] = "unreadable"
+        for names in (["d"], ["zeta.md", "d"], ["d", "alpha.md"], ["d/deep", "zeta.md"]):
+            inputs.append(("paths=%s unreadable=%s" % (names, bad), mk(names, fs)))
     h = e2.Harness("given_documents_keep_their_order", drive, inputs, post, native=None, judge=None,
-                   describe="find_and_parse yields one parsed document per named file, in the order the paths were given (command line, prepend / append lists)",
-                   bound="every ordered selection of 1..3 of the paths %s; files only (the order inside a directory is the file system's)" % base)
+                   describe="find_and_parse yields one parsed document per named file and per matching file below a named directory (depth first), in the order "
+                            "the paths were given (command line, prepend / append lists); if one of those documents cannot be read it returns an error",
+                   bound="every ordered selection of 1..3 of the paths %s; the directory tree %s named in 4 ways, with no / a shallow / a deep / a top-level "
+                         "unreadable document (the order inside a directory is the listing's)" % (base, ORDER_TREE))
     h.models_cls = OrderModels
     return h
 
 
-def native_document_order(names):
+def native_document_order(names, fs=None):
     """real `scrut test -r json` on explicitly named passing-and-failing documents: the outcomes come in the order of the command line"""
     import json
     import os
@@ -764,9 +815,15 @@ def native_document_order(names):
     from common import SCRUT_BIN
     tmp = tempfile.mkdtemp(prefix="verif-c20o-")
     try:
-        for n in names:
+        files = []
+        for n in list(names) + [x for v in (fs or {}).values() if isinstance(v, list) for x in v]:
+            if not isinstance((fs or {}).get(n, "file"), list) and n not in files:
+                files.append(n)
+        for n in files:
             os.makedirs(os.path.dirname(os.path.join(tmp, n)) or tmp, exist_ok=True)
-            if n.endswith(".t"):
+            if (fs or {}).get(n) == "unreadable":
+                open(os.path.join(tmp, n), "wb").write(b"\xff\xfe not utf-8\n")
+            elif n.endswith(".t"):
                 open(os.path.join(tmp, n), "w").write("%s\n  $ echo hello\n  nope\n" % n)
             else:
                 open(os.path.join(tmp, n), "w").write("%s\n\n```scrut\n$ echo hello\nnope\n```\n" % n)
@@ -838,10 +895,15 @@ def run(pid, tier):
     ho = h_document_order(prog)
     reso = e2.run_with_raw(prog, ho, max_witnesses=3)
     for model, r in reso.raw_witnesses[:3]:
-        names = r.ctx.notes["names"]
-        got, obs = native_document_order(names)
-        if got is not None and got != names:
-            rep.violation("document-order", "`scrut test %s` reports its documents in the order %s" % (" ".join(names), got),
+        names, fs = r.ctx.notes["names"], r.ctx.notes["fs"]
+        got, obs = native_document_order(names, fs)
+        want = expected_documents(names, fs)
+        if want is None and obs["exit"] != 1:
+            rep.violation("document-unreadable-not-reported", "`scrut test %s` with the unreadable document %s below it exits with %s (expected 1) and reports %s"
+                          % (" ".join(names), [k for k, v in fs.items() if v == "unreadable"], obs["exit"], got),
+                          {"kind": "scrut-test-run", "observation": obs, "harness": ho.name})
+        elif want is not None and got is not None and sorted(got) != sorted(want) or (want is not None and got is not None and not fs and got != want):
+            rep.violation("document-order", "`scrut test %s` reports its documents as %s (expected %s)" % (" ".join(names), got, want),
                           {"kind": "scrut-test-run", "observation": obs, "harness": ho.name})
         else:
             rep.mismatches.append("%s: solver witness %s did not reproduce natively: %s" % (ho.name, names, obs))
@@ -852,6 +914,16 @@ def run(pid, tier):
     if got != ["zeta.md", "last.t", "alpha.md"]:
         rep.violation("document-order", "`scrut test zeta.md last.t alpha.md` reports its documents in the order %s" % got,
                       {"kind": "scrut-test-run", "observation": obs, "harness": "end-to-end sample"})
+    for bad in ("d/one.md", "d/deep/two.t"):
+        fs = dict(ORDER_TREE)
+        fs[bad] = "unreadable"
+        got, obs = native_document_order(["zeta.md", "d"], fs)
+        if obs["exit"] != 1:
+            rep.violation("document-unreadable-not-reported", "`scrut test zeta.md d` with the unreadable document %s exits with %s (expected 1) and reports %s"
+                          % (bad, obs["exit"], got), {"kind": "scrut-test-run", "observation": obs, "harness": "end-to-end sample"})
+    got, obs = native_document_order(["zeta.md", "d"], dict(ORDER_TREE))
+    if got is None or sorted(got) != sorted(["zeta.md", "d/one.md", "d/deep/two.t"]) or got[0] != "zeta.md":
+        rep.violation("document-order", "`scrut test zeta.md d` reports its documents as %s" % got, {"kind": "scrut-test-run", "observation": obs, "harness": "end-to-end sample"})
     hm = h_main()
     hm.models_cls = lambda: MainModels(prog)
     resm = e2.run_harness(prog, hm)
